@@ -21,7 +21,7 @@ from typing import Dict, List, Optional, Set, Tuple
 
 import sympy as sp
 
-from ..consteval import Folder, Opaque, Raised, Undecidable
+from ..consteval import Folder, FuncVal, Opaque, Raised, Undecidable
 from ..index import AnalysisError, FunctionInfo, Index, norm, own_nodes
 from ..report import Report
 from ..rules import translators as tr
@@ -102,6 +102,7 @@ def run(idx: Index, rep: Report, tier: str):
         check_operand_order(idx, rep, dispatches[fmt])
     rep.floor("translator dispatch chains analysed", len(fmts), 2 if tier == "quick" else 11)
     check_cirq_units(idx, rep, dispatches["cirq"])
+    check_no_silent_drop(idx, rep, tier)
     check_sympy_table_and_matrices(idx, rep, dispatches["sympy"])
     check_bit_order(idx, rep)
     check_idle_and_initial_state(idx, rep, dispatches["cirq"])
@@ -426,6 +427,30 @@ def _matrix_of(f: FunctionInfo) -> sp.Matrix:
     return sp.Matrix(rows)
 
 
+def _fold_entry_matrix(idx: Index, fv) -> sp.Matrix:
+    """matrix applied by a table entry that is a function of the target built from the module's own matrix gates (rx_gate, ry_gate, rz_gate, p_gate)"""
+    theta = sp.Symbol("theta", real=True)
+    mats = {fname: _matrix_of(idx.function(f"{SYMPY_T}::{fname}")) for fname in ("rx_gate", "ry_gate", "rz_gate", "p_gate")}
+    seen = {}
+
+    def ctor(fname):
+        def _f(a, k):
+            if len(a) != 2 or a[0] != "TARGET":
+                raise Undecidable(f"{fname} called with {a!r}")
+            seen["m"] = mats[fname].subs(theta, sp.nsimplify(a[1]) if not isinstance(a[1], sp.Basic) else a[1])
+            return "UGATE"
+        return _f
+    fo = Folder(ctors={fname: ctor(fname) for fname in mats})
+    fo.env["pi"] = sp.pi
+    if fv.closure is not None:
+        fv = FuncVal(fv.node, closure={k: (sp.pi if isinstance(x, Opaque) and x.text.split(".")[-1] == "pi" and not x.args else x) for k, x in fv.closure.items()},
+                     bound_self=fv.bound_self, home=fv.home)
+    r = fo.call_funcval(fv, ["TARGET"], {})
+    if r != "UGATE" or "m" not in seen:
+        raise Undecidable(f"table entry folds to {r!r}")
+    return seen["m"]
+
+
 def check_sympy_table_and_matrices(idx: Index, rep: Report, d: tr.Dispatch):
     rule = "K9.sympy-gates"
     table = fold_table(idx, "sympy")
@@ -437,6 +462,21 @@ def check_sympy_table_and_matrices(idx: Index, rep: Report, d: tr.Dispatch):
             rep.info(rule, tf, tf.node, text=f"sympy table: {name}", reason="name outside the reference table; not decided")
             continue
         n += 1
+        inner = v.args[0] if isinstance(v, Opaque) and v.text == "controlled_gate" and len(v.args) == 1 else v
+        if isinstance(inner, FuncVal):
+            # a table entry written as a function of the target (e.g. `lambda target: p_gate(target, pi / 2)`): folded into the matrix it applies, which has
+            # to be the documented matrix of the (base) gate - decided from the value, not from which library symbol is named
+            base = name[1:] if isinstance(want, tuple) else name
+            try:
+                m = _fold_entry_matrix(idx, inner)
+                ref = symx.gate_matrix(base)
+            except (symx.Untranslatable, Undecidable, Raised) as e:
+                raise AnalysisError(f"sympy table entry {name}: function entry not foldable: {e}")
+            ok = symx.matrix_equal(m, ref) and (not isinstance(want, tuple) or isinstance(v, Opaque))
+            rep.decide(ok, rule, tf, tf.node, text=f"sympy table: {name} -> function applying {sp.simplify(m).tolist()}",
+                       what=f"{name} applies the documented matrix of {base}{' under its control' if isinstance(want, tuple) else ''}",
+                       reason=f"{name} applies {sp.simplify(m).tolist()}, the documented matrix is {sp.simplify(ref).tolist()}")
+            continue
         if isinstance(want, tuple):
             ok = isinstance(v, Opaque) and v.text == "controlled_gate" and len(v.args) == 1 and isinstance(v.args[0], Opaque) and v.args[0].text == want[1]
         else:
@@ -756,3 +796,71 @@ def check_sympy_initial_state_shapes(idx: Index, rep: Report):
     rep.decide(ok, rule, sim, sim.node, text="the type dispatch on initial_statevector has a branch for sympy matrices",
                what="the statevector this backend returns (a sympy matrix) can be supplied back as an initial state",
                reason=f"type tests on initial_statevector are {tests}: the backend rejects the type of its own returned statevector")
+
+
+def check_no_silent_drop(idx: Index, rep: Report, tier: str):
+    """every branch of a circuit writer's dispatch chain puts something into the object the function returns (or refuses by raising) on *every* path through the
+    branch: a gate of the source circuit is never dropped under a side condition (an option, a counter, a noise setting).  Output objects are the names in the
+    function's return expressions; an emission is an in-place extension of one of them or a call of one of their methods."""
+    rule = "K3.no-silent-drop"
+    n = 0
+    for d in tr.writer_dispatches(idx):
+        if tier == "quick" and d.fmt not in ("cirq", "sympy", "json_ionq", "projectq", "openqasm"):
+            continue
+        outs = set()
+        for r in own_nodes(d.func.node):
+            if isinstance(r, ast.Return) and r.value is not None:
+                outs |= {x.id for x in ast.walk(r.value) if isinstance(x, ast.Name)}
+        if not outs:
+            raise AnalysisError(f"{d.func.ref}: no returned name found")
+        # names an output is built from (json_gates inside the returned dictionary, the body string formatted into the returned program, ...) are outputs too
+        for _round in range(4):
+            for st in own_nodes(d.func.node):
+                if isinstance(st, (ast.Assign, ast.AugAssign)):
+                    tgts = st.targets if isinstance(st, ast.Assign) else [st.target]
+                    if any(isinstance(t, ast.Name) and t.id in outs for t in tgts):
+                        outs |= {x.id for x in ast.walk(st.value) if isinstance(x, ast.Name) and x.id not in d.func.params and x.id != d.var}
+
+        def emits(st) -> bool:
+            for x in ast.walk(st):
+                if isinstance(x, ast.AugAssign) and isinstance(x.target, ast.Name) and x.target.id in outs:
+                    return True
+                if isinstance(x, ast.Call) and isinstance(x.func, ast.Attribute):
+                    b = x.func.value
+                    while isinstance(b, (ast.Attribute, ast.Subscript)):
+                        b = b.value
+                    if isinstance(b, ast.Name) and b.id in outs:
+                        return True
+                if isinstance(x, ast.Call) and any(isinstance(a, ast.Name) and a.id in outs for a in x.args):
+                    return True                           # the output object handed to a gate-adding function (braket / qiskit / qulacs style)
+                if isinstance(x, ast.Assign) and any(isinstance(t, ast.Name) and t.id in outs for t in x.targets):
+                    return True
+            return False
+
+        def always(stmts) -> bool:
+            for st in stmts:
+                if isinstance(st, ast.Raise):
+                    return True
+                if isinstance(st, ast.If):
+                    if always(st.body) and st.orelse and always(st.orelse):
+                        return True
+                    continue
+                if isinstance(st, (ast.For, ast.While)):
+                    if always(st.body):
+                        return True                       # loops over the gate's own qubits: never empty
+                    continue
+                if isinstance(st, (ast.With, ast.Try)):
+                    if always(st.body):
+                        return True
+                    continue
+                if emits(st):
+                    return True
+            return False
+        for br in d.branches:
+            if not br.names:
+                continue
+            n += 1
+            rep.decide(always(br.body) or always(d.post), rule, d.func, br.node, text=f"{d.fmt}: {{{', '.join(sorted(br.names))}}} always emitted",
+                       what="every gate of the source circuit is translated (or refused) on every path through its branch - none is dropped under a side condition",
+                       reason=f"a path through the branch for {sorted(br.names)} reaches its end without adding anything to {sorted(outs)}: the gate disappears from the translated circuit")
+    rep.floor("writer branches checked for silent drops", n, 20)
